@@ -525,8 +525,52 @@ def c01(ctx):
     # "wherever it occurs" includes code that an earlier change of the same patch produced: chains, mostly through the binary
     engine_family(ctx, "c09", {"status", "where"}, n_quick=150, n_thorough=4000, golden=False, cli_n=(80, 1500))
     very_large_patterns(ctx, {"status", "where", "converse", "decisions"})
+    relaid_family(ctx, (("c01", 120), ("c05", 60)), {"status", "where", "converse"})
     ctx.rule = rule + (" A second batch uses generator mode c02 (repeated metavariables with identical, almost identical and different "
                        "fillers), a third one mode c09 (chains of changes in which a later change matches only what an earlier one produced).")
+
+INNER_COMMENTS = [" //nolint:gomnd", " //nolint:errcheck // reason", " // plain remark", " /* block */", " //go:generate echo x", " //export sym",
+                  " //lint:ignore U1000 kept", " //extern sym", " //go:noinline", " // TODO(x): later"]
+
+def relaid_source(rng, src):
+    """the same tokens with other whitespace and with comments (directive-form ones too) at line ends and inside brackets: the same
+    syntax tree, so the same instances"""
+    out = []
+    n = 0
+    for l in src.split("\n"):
+        st = l.strip()
+        plain = not any(q in l for q in "\"'`") and not st.startswith(("package", "import", "//", "/*"))
+        if plain and st and "(" in l and rng.random() < 0.35:
+            # break the line after an opening bracket, with a comment at the end of the first part
+            k = l.index("(") if rng.random() < 0.6 else l.rindex("(")
+            l = l[:k + 1] + rng.choice(INNER_COMMENTS) + "\n\t\t" + l[k + 1:]
+            n += 1
+        elif plain and st and not st.endswith(("(", ",")) and rng.random() < 0.3:
+            l = l + rng.choice(INNER_COMMENTS)
+            n += 1
+        elif plain and st and rng.random() < 0.1:
+            l = l.replace(" ", "   ", 2)
+            n += 1
+        out.append(l)
+    return "\n".join(out) if n else None
+
+def relaid_family(ctx, modes, checks):
+    """C01 "up to whitespace, comments and positions": generated cases whose source is laid out anew, with comments of every form
+    inside and next to the instances; the decisions are the model's on the tree of that source (which has no comments in it)"""
+    rng = random.Random(ctx.seed + 101)
+    cases = []
+    for mode, n in modes:
+        for c in gen_cases(ctx, mode, n if ctx.tier == "quick" else n * 20, ctx.seed + 77, golden=True):
+            if not c.get("patches") or not isinstance(c.get("src"), str):
+                continue
+            for v in range(2):
+                src = relaid_source(rng, c["src"])
+                if src:
+                    cases.append({"id": f"relaid-{mode}-{c['id']}-{v}", "patches": c["patches"], "src": src})
+    res = run_engine_batch(ctx, ["-inputs", write_jsonl(ctx, cases)], "relaid")
+    ctx.count("relaid_sources", len(res))
+    engine_projection(ctx, res, checks)
+    cli_projection(ctx, res, checks, 40 if ctx.tier == "quick" else 1000)
 
 def c02_generated_sites(ctx):
     """A later change of the patch binds its metavariables at several sites inside code that an earlier change generated
@@ -611,6 +655,23 @@ def very_large_patterns(ctx, checks):
         p2 = f"@@\nvar m expression\n@@\n-wide(m, {args}, m)\n+narrow(m)\n"
         cases.append({"id": f"wide{n}-same", "patches": [p2], "src": f"package a\n\nfunc f() {{\n\twide(x.y, {args}, x.y)\n}}\n"})
         cases.append({"id": f"wide{n}-other", "patches": [p2], "src": f"package a\n\nfunc f() {{\n\twide(x.y, {args}, x.z)\n}}\n"})
+    # what a repeated metavariable stands for may be deep: sums, call chains, nested calls, indexings and parentheses of many levels
+    # that are identical, or differ only at the innermost or the outermost place
+    for n in ((10, 50, 130) if ctx.tier == "quick" else (10, 50, 130, 400)):
+        shapes = {
+            "sum": lambda leaf, top: "+".join([leaf] + [f"t{i}" for i in range(n)] + [top]),
+            "chain": lambda leaf, top: leaf + "".join(f".m{i}()" for i in range(n)) + "." + top,
+            "nest": lambda leaf, top: top + "(" + "".join(f"g{i}(" for i in range(n)) + leaf + ")" * (n + 1),
+            "index": lambda leaf, top: leaf + "".join(f"[i{i}]" for i in range(n)) + "." + top,
+            "paren": lambda leaf, top: "-" + "(" * n + leaf + ")" * n + "+" + top,
+            "lit": lambda leaf, top: "".join("[]" for i in range(n)) + "T" + "{" * n + leaf + "}" * n + "." + top,
+        }
+        for nm, mk in shapes.items():
+            lines = [f"equal({mk('aa', 'zz')}, {mk('aa', 'zz')})", f"equal({mk('aa', 'zz')}, {mk('ab', 'zz')})", f"equal({mk('aa', 'zz')}, {mk('aa', 'zy')})",
+                     f"equal({mk('ab', 'zz')}, {mk('aa', 'zz')})", f"equal({mk('ab', 'zy')}, {mk('ab', 'zy')})"]
+            src = "package a\n\nfunc f() {\n" + "".join("\t" + l + "\n" for l in lines) + "}\n"
+            cases.append({"id": f"deep{n}-{nm}", "patches": ["@@\nvar x expression\n@@\n-equal(x, x)\n+same(x)\n"], "src": src})
+            cases.append({"id": f"deep{n}-{nm}-three", "patches": ["@@\nvar x, y expression\n@@\n-equal(x, y)\n+pair(y, x, y)\n", "@@\nvar x expression\n@@\n-pair(x, ..., x)\n+twice(x)\n"], "src": src})
     # a patch line far longer than any buffer a line reader starts with (a 70 KB literal on a context line; on a '-' line)
     big = "x" * 70000
     for tag, body in (("context", f"-oldInit()\n+newInit()\n loadTable(\"{big}\")\n"), ("minus", f"-oldInit()\n-loadTable(\"{big}\")\n+newInit()\n"),
@@ -621,7 +682,8 @@ def very_large_patterns(ctx, checks):
     res = run_engine_batch(ctx, ["-inputs", write_jsonl(ctx, cases)], "large")
     ctx.count("very_large_pattern_cases", len(res))
     engine_projection(ctx, res, checks)
-    cli_projection(ctx, res, checks - {"converse"}, len(res))
+    through_cli = [r for r in res if not r[0]["id"].startswith("deep") or r[0]["id"].startswith("deep50-") or ctx.tier != "quick"]
+    cli_projection(ctx, through_cli, checks - {"converse"}, len(through_cli))
 
 @prop("C02")
 def c02(ctx):
@@ -710,6 +772,55 @@ def c03(ctx):
     ctx.rule += (" Plus a table in which a metavariable is bound by the name of an import only (context or '-' import line) and used in "
                  "the '+' code: the generated code carries the name the file imports the package under; written by hand expectations.")
     c03_import_name(ctx)
+    ctx.rule += (" Plus a table of '+' sides of every syntactic form a type can take, over sites in every position a type can stand in "
+                 "(and in expression positions): hand-written expectation = the '-' text replaced by the '+' text at every site.")
+    c03_type_positions(ctx)
+
+TYPE_PLUS = ["OrderedSet[T]", "pkg.Map[string, T]", "*T", "[]T", "[4]T", "map[string]T", "chan T", "<-chan T", "func(T) error", "(T)",
+             "struct{ v T }", "interface{ M() T }", "pkg.Set", "Set2", "G[T, U]", "[]*pkg.G[T]"]
+
+def c03_type_positions(ctx):
+    positions = ["type A OLD", "type B = OLD", "type S struct {\n\tf OLD\n}", "type S struct {\n\tg, h OLD\n}", "type S struct {\n\tOLD\n}", "var v OLD",
+                 "var w, x OLD = mk(), mk()", "const c OLD = 0", "func f(p OLD) {}", "func f(q ...OLD) {}", "func f() OLD { return z }", "func f() (OLD, error) { return z, nil }",
+                 "func f() {\n\tvar l OLD\n\tuse(l)\n}", "var s = []OLD{}", "var m = map[OLD]bool{}", "var m = map[string]OLD{}", "var ch = make(chan OLD, 1)",
+                 "var arr = [3]OLD{}", "var pp = new(OLD)", "var cv = OLD(l)", "var as = any(l).(OLD)", "var fn = func(OLD) OLD { return l }", "var lit = OLD{}",
+                 "func f() {\n\tswitch any(l).(type) {\n\tcase OLD:\n\t}\n}", "var pt *OLD", "var gen G2[OLD, int]", "func (r OLD) method() {}",
+                 "type I interface{ M(OLD) OLD }", "func gen[P OLD](p P) {}", "type C interface{ ~string | OLD }", "var two = pair(OLD{}, OLD(nil))"]
+    cases = []
+    for k, plus in enumerate(TYPE_PLUS):
+        for old in ("Set[T]", "Old"):
+            if old == "Old" and "T" in plus:
+                continue       # T would be unbound
+            meta = "var T expression\n" if old == "Set[T]" else ""
+            patch = f"@@\n{meta}@@\n-{old}\n+{plus}\n"
+            inst = old.replace("T", "int")
+            for pi, pos in enumerate(positions):
+                src = "package a\n\n" + pos.replace("OLD", inst) + "\n"
+                cases.append({"id": f"typepos{k}-{old[:3]}-{pi}", "patches": [patch], "src": src, "want_sites": src.count(inst), "plus": plus.replace("T", "int")})
+    res = run_engine_batch(ctx, ["-inputs", write_jsonl(ctx, cases)], "typepos")
+    ctx.count("type_position_cases", len(res))
+    engine_projection(ctx, res, {"status", "content", "decisions"})
+    cli_projection(ctx, res, {"status", "content", "decisions"}, 60 if ctx.tier == "quick" else len(res))
+    # the hand-written expectation, through the binary: every site that is not refused as inadmissible carries the '+' text; the
+    # '-' text is nowhere left unless the run reports an error
+    by = {c["id"]: c for c in cases}
+    def one(c):
+        root = ctx.scratch("typepos")
+        cl.write_tree(root, {"a.go": c["src"], "p.patch": c["patches"][0]})
+        code, out, err = cl.gopatch(ctx.gopatch, root, ["-p", "p.patch", "--print-only", "a.go"])
+        shutil.rmtree(root, ignore_errors=True)
+        return c, code, out.decode("utf-8", "replace"), err.decode("utf-8", "replace")
+    with ThreadPoolExecutor(max_workers=8) as ex:
+        for c, code, out, err in ex.map(one, cases):
+            ctx.evaluations += 1
+            ctx.nontrivial.add("typepos:" + c["plus"])
+            inst = "Set[int]" if "Set[T]" in c["patches"][0] else "Old"
+            left = len(re.findall(r"(?<![\w.])" + re.escape(inst) + r"(?!\w)", out))
+            if code == 0 and left:
+                ctx.violation(f"{left} of {c['want_sites']} sites keep the '-' text {inst!r} although the run reports success (the '+' side {c['plus']!r} "
+                              "is a type and may stand wherever the matched type stood)",
+                              {"input": {"patches": c["patches"], "src": c["src"]}, "output": out[-2500:], "stderr": err[-500:],
+                               "reproduce": "gopatch -p p.patch --print-only a.go"})
 
 def c03_import_name(ctx):
     """a metavariable bound only as the name of an import and used in the '+' code: the name the file knows the package by"""
@@ -750,11 +861,76 @@ def c04(ctx):
     # which '+' elision reproduces which '-' elision is decided by where each is recorded to stand in the patch file:
     # the front end's chain from the bytes of the patch to those places, against the model's
     split_tie(ctx, [{"id": r[0].get("id"), "patch": p} for r in res for p in r[0].get("patches", [])])
+    elisions_over_generated_code(ctx)
+
+ELISION_CHAINS = [
+    (["@@\n@@\n-fetch(...)\n+fetchContext(ctx, ...)\n", "@@\n@@\n-fetchContext(ctx, ...)\n+client.Fetch(ctx, ...)\n"],
+     "package a\n\nfunc run() {\n\tfetch(url, 3)\n\tfetch()\n\tfetchContext(ctx, url, retries, 10)\n\tfetch(first(url), []int{1, 2}, func() {})\n}\n"),
+    (["@@\n@@\n-fetch(...)\n+fetchAll(..., last)\n", "@@\n@@\n-fetchAll(..., last)\n+fetchSome(...)\n"],
+     "package a\n\nfunc run() {\n\tfetch(url, 3)\n\tfetch()\n\tfetchAll(a, b, last)\n}\n"),
+    (["@@\n@@\n-fetch(...)\n+fetchAll(first, ..., last)\n", "@@\nvar x expression\n@@\n-fetchAll(first, ..., x, ...)\n+got(x, ...)\n"],
+     "package a\n\nfunc run() {\n\tfetch(url, 3)\n\tfetch()\n\tfetchAll(first, b, last)\n}\n"),
+    (["@@\n@@\n-Opts{...}\n+Options{Strict: true, ...}\n", "@@\n@@\n-Options{Strict: true, ...}\n+NewOptions(...)\n"],
+     "package a\n\nvar o = Opts{A: 1, B: 2}\n\nvar p = Opts{}\n\nvar q = Options{Strict: true, C: 3}\n"),
+    (["@@\nvar f identifier\n@@\n func f() {\n+  lock()\n   ...\n }\n", "@@\nvar f identifier\n@@\n func f() {\n   lock()\n+  defer unlock()\n   ...\n }\n"],
+     "package a\n\nfunc g() {\n\twork(1)\n\twork(2)\n}\n\nfunc h() {\n}\n\nfunc k() {\n\tlock()\n\twork(3)\n}\n"),
+    (["@@\nvar f identifier\n@@\n-func f(...) error {\n+func f(ctx Context, ...) error {\n   ...\n }\n",
+      "@@\nvar f identifier\n@@\n-func f(ctx Context, ...) error {\n+func f(ctx Context, ...) (int, error) {\n   ...\n }\n"],
+     "package a\n\nfunc g(a int, b string) error {\n\treturn nil\n}\n\nfunc h() error {\n\treturn nil\n}\n\nfunc k(ctx Context, n int) error {\n\treturn nil\n}\n"),
+    (["@@\n@@\n-type T struct {\n+type T struct {\n+  mu Mutex\n   ...\n }\n", "@@\n@@\n type T struct {\n   mu Mutex\n-  ...\n+  data Data\n }\n"],
+     "package a\n\ntype T struct {\n\ta int\n\tb string\n}\n"),
+    (["@@\nvar x expression\n@@\n-log(x, ...)\n+logger.Info(x, ...)\n", "@@\nvar x expression\n@@\n-logger.Info(x, ...)\n+logger.With(...).Info(x)\n"],
+     "package a\n\nfunc run() {\n\tlog(\"m\", k, v)\n\tlog(\"n\")\n\tlogger.Info(\"o\", w)\n}\n"),
+]
+
+def elisions_over_generated_code(ctx):
+    """C04 over several changes: a later change's "..." has to be matched against code that an earlier change of the run generated
+    (lists whose explicit elements were written by a '+' side, next to runs that were reproduced from the file): the same choice of
+    runs exists there as in that code written out in a file"""
+    cases = []
+    for k, (chain, src) in enumerate(ELISION_CHAINS):
+        cases.append({"id": f"elgen{k}-two-patches", "patches": chain, "src": src})
+        cases.append({"id": f"elgen{k}-one-patch", "patches": ["\n".join(chain)], "src": src})
+        cases.append({"id": f"elgen{k}-second-alone", "patches": chain[1:], "src": src})
+    res = run_engine_batch(ctx, ["-inputs", write_jsonl(ctx, cases)], "elgen")
+    ctx.count("elisions_over_generated_code", len(res))
+    if len(res) != len(cases):
+        ctx.violation("a chain of changes with elisions is not accepted by the engine or the model", {"input": {"cases": [c["id"] for c in cases], "answered": [r[0]["id"] for r in res]}})
+    engine_projection(ctx, res, {"status", "where", "content", "decisions"})
+    cli_projection(ctx, res, {"status", "content", "decisions"}, len(res))
+
+BYSTANDERS = [
+    "var usage = `Usage:  \n  tool [flags]\t\n\t\n    \nend`\n",
+    "const md = `line one  \nline two\\\n \n`\n\nvar after = 1\n",
+    "func bystander() string {\n\treturn `a \n\tb\t\n` + \"x \" + ` `\n}\n",
+    "/* block comment with blanks   \n   \n */\nvar spelled = []any{0x1F, 1_000, 1e+3, .5, 0o17, 0b101, 'a', \"\\u00e4\", `\\u00e4`, 1i, '\\n', 0X1f, 017}\n",
+    "var tmpl = template.Must(template.New(\"t\").Parse(`{{ range . }}  \n  {{ . }}\t\n{{ end }}\n`))\n",
+    "type bystanderT struct {\n\tA int `json:\"a\"  `\n\tB string `yaml:\"b\" `\n}\n",
+]
+
+def bystanders_family(ctx):
+    """C05: declarations the patch has nothing to do with, whose tokens are easy to damage when the file is printed or cleaned up
+    (raw strings whose lines end in blanks, every spelling of a literal, struct tags, comments with trailing blanks), in files the
+    patch does rewrite: they come out token for token as they went in, from the engine and from the binary"""
+    cases = []
+    for i, c in enumerate(gen_cases(ctx, "c05", 40 if ctx.tier == "quick" else 1500, ctx.seed + 55, golden=False)):
+        if not c.get("patches") or not isinstance(c.get("src"), str):
+            continue
+        b = BYSTANDERS[i % len(BYSTANDERS)]
+        cases.append({"id": f"bystander-last-{i}", "patches": c["patches"], "src": c["src"].rstrip("\n") + "\n\n" + b})
+        m = re.search(r"^(func|var|type|const) ", c["src"], re.M)
+        if m and "template" not in b:
+            cases.append({"id": f"bystander-first-{i}", "patches": c["patches"], "src": c["src"][:m.start()] + b + "\n" + c["src"][m.start():]})
+    res = run_engine_batch(ctx, ["-inputs", write_jsonl(ctx, cases)], "bystanders")
+    ctx.count("bystander_cases", len(res))
+    engine_projection(ctx, res, {"outside"})
+    cli_projection(ctx, res, {"outside", "content"}, len(res))
 
 @prop("C05")
 def c05(ctx):
     engine_family(ctx, "c05", {"outside"})
     rule = ctx.rule
+    bystanders_family(ctx)
     # code that only resembles an instance (a repeated metavariable over code that differs, an identifier metavariable over
     # a selector) is outside every rewritten fragment
     kinds_and_names_family(ctx, {"outside", "decisions", "where"})
@@ -803,6 +979,7 @@ def gen_cases(ctx, mode, n, seed, golden=True):
     return [json.loads(l) for l in r.stdout.splitlines() if l.strip()]
 
 UNPARSEABLE = "package bad\n\nfunc {\n"
+MANY_ERRORS = "package bad\n\n" + "".join(f"{{{{ range .Items{i} }}}}\nfunc {{{{ .Name }}}}() {{ }}\n{{{{ end }}}}\n" for i in range(70))
 ODD_UNMATCHED = [
     "package odd\r\n\r\nfunc  crlf( ) {\r\n\tzzz( 1 )\r\n}\r\n",
     "//go:build ignore\n// +build ignore\n\npackage odd\n\n\n\nfunc   spaced ( )   {   zzz (1)   }\n",
@@ -832,6 +1009,8 @@ def make_scenarios(ctx, cases, n, rng, kinds):
         if "unparseable" in kinds and rng.random() < 0.35:
             # a syntax error after the package clause, or no package clause at all (an empty placeholder, a template)
             files[rng.choice(["a/bad.go", "zbad.go", "0bad.go"])] = rng.choice([UNPARSEABLE, UNPARSEABLE, "", "func orphan() {}\n"])
+            if k % 4 == 0:
+                files["0_template.go"] = MANY_ERRORS     # hundreds of syntax errors in one file, before every other file
             note.append("unparseable")
         if "odd" in kinds and rng.random() < 0.8:
             # (a file whose name starts with ro_ is made read-only by setup_scenario: nothing has to be written to it)
@@ -887,6 +1066,11 @@ def setup_scenario(ctx, sc):
     cl.write_tree(root, sc.files)
     for rel in sc.files:
         if os.path.basename(rel).startswith("ro_"):
+            os.chmod(os.path.join(root, rel), 0o444)
+    # ... and so are some of the files the patch is meant for: a file without write permission is rewritten like any other
+    # (through a temporary file and a rename), previewed, logged, skipped only for the reasons that hold for every file
+    for k, rel in enumerate(sorted(r_ for r_ in sc.files if r_.endswith(".go"))):
+        if k % 3 == 1 and not getattr(sc, "no_bare_files", False):
             os.chmod(os.path.join(root, rel), 0o444)
     # files that look like what gopatch or an editor leaves behind: none of them is a Go source file, no mode may touch them
     for rel in sorted(sc.files)[:2]:
@@ -1129,8 +1313,16 @@ def model_decisions(ctx, scen):
                     src = src.decode("utf-8", "replace")
                 f.write(json.dumps({"id": sc.id + "|" + rel, "patches": sc.patches, "src": src}) + "\n")
     out = {}
+    reported = set()
     for inp, orig, impl, model, same in run_engine_batch(ctx, ["-inputs", pth], "dec"):
         out[inp["id"]] = (model["status"], any(t.startswith("k") for t in model["trace"]))
+        key = json.dumps(inp.get("patches"))
+        if impl.get("front") == "0" and key not in reported and len(reported) < 3:
+            # the decisions are taken for the patch as the implementation compiled it: that has to be the patch as written
+            reported.add(key)
+            ctx.violation("the pattern compiled from the patch differs from the pattern its text denotes (independent parse of each side of "
+                          "each change): which files the patch applies to is decided for another patch than the one given",
+                          replay_payload(inp, impl, model, {"problems": ["front-end: compiled pattern differs from the patch text"]}))
     return out
 
 @prop("C06")
@@ -1195,8 +1387,16 @@ def c06(ctx):
              {"nospread.go": "package a\n\nfunc f(p []any) {\n\tlogf(1, p)\n}\n", "spread.go": "package a\n\nfunc g(p []any) {\n\tlogf(1, p...)\n}\n"}),
             ("@@\n@@\n-type Alias = int\n+type Alias = int64\n",
              {"def.go": "package a\n\ntype Alias int\n", "alias.go": "package a\n\ntype Alias = int\n"})]
+    near += [("@@\n@@\n-unit(\"10\u00a0km\")\n+unit(\"10 kilometres\")\n",
+              {"space.go": "package a\n\nfunc f() { unit(\"10 km\") }\n", "nbsp.go": "package a\n\nfunc g() { unit(\"10\u00a0km\") }\n"}),
+             ("@@\n@@\n-unit(\"10 km\")\n+unit(\"10 kilometres\")\n",
+              {"nbsp.go": "package a\n\nfunc g() { unit(\"10\u00a0km\") }\n", "tab.go": "package a\n\nfunc h() { unit(\"10\tkm\") }\n",
+               "space.go": "package a\n\nfunc f() { unit(\"10 km\") }\n"}),
+             ("@@\n@@\n-tag(`a\u200bb`, '\u00e9')\n+tag2()\n",
+              {"plain.go": "package a\n\nfunc f() { tag(`ab`, 'e') }\n", "same.go": "package a\n\nfunc g() { tag(`a\u200bb`, '\u00e9') }\n",
+               "composed.go": "package a\n\nfunc h() { tag(`a\u200bb`, 'e') }\n"})]
     for k, (np, nfiles) in enumerate(near):
-        scen.append(Scenario(f"posonly{k}", [np], dict(nfiles), "code that differs from the pattern in a position-only token"))
+        scen.append(Scenario(f"posonly{k}", [np], dict(nfiles), "code that differs from the pattern in a position-only token or a look-alike character"))
     scen += corpus_scenarios("C06")
     decisions.update(model_decisions(ctx, scen))
     library_reuse_family(ctx, "C06: a source no change applies to comes back as it is, with no error, whatever was applied before")
@@ -1401,6 +1601,12 @@ def c12_body(ctx, post):
     run_scenarios(ctx, [sc], [["diff"], ["print"], []], {"write", "stdout", "desc", "diffapply"}, None)
     # how the file ends: blank lines, blanks, a comment, no newline at all - the printed diff must take the original to the
     # very bytes the other modes give, its last line included
+    invis = {"esc": "\x1b[31mred\x1b[0m", "formfeed": "a\x0cb", "bidi": "left\u202eright\u202c", "zero-width": "a\u200bb\ufeffc", "bell-backspace": "x\x07\x08y",
+             "nbsp": "10\u00a0km", "del": "a\x7fb"}
+    scs = [Scenario(f"invisible-{k}", ["@@\nvar x expression\n@@\n-zzz(x)\n+yyy(x)\n"],
+                    {"i.go": f"package odd\n\n// {v} in a comment\nfunc inv() {{\n\tzzz(\"{v}\") // {v}\n\tkeep(`{v}`)\n}}\n"}, "invisible characters on the lines of a change")
+           for k, v in invis.items()]
+    run_scenarios(ctx, scs, [["diff"], ["print"], [], ["diff", "v"]], {"write", "stdout", "desc", "diffapply"}, None)
     ends = ["}\n\n\n", "}\n\n", "}\n\t\n", "}", "}\n\n// the end\n\n\n", "}\n/* tail */", "}\n\n\n\n\n\n\n\n"]
     scs = [Scenario(f"ending{k}", ["@@\n@@\n-zzz(1)\n+yyy(1)\n"],
                     {"e.go": "package odd\n\nfunc tail() {\n\tzzz(1)\n" + e, "f.go": "package odd\n\nfunc other() {\n\tkeep(2)\n" + e}, "file ending")
@@ -1487,13 +1693,16 @@ def c18(ctx):
     for bi, base in enumerate(bases):
         for name, hdr, isgen in headers:
             src = base["src"]
+            # (what follows the package clause: the base file may start with comments, so the first line is not always the clause -
+            # false alarm of the thorough sweep, seed 191)
+            after_clause = lambda text, ins: re.sub(r"^(package [^\n]*)\n", lambda m_: m_.group(1) + "\n" + ins, text, count=1, flags=re.M)
             if hdr is None and name == "marker-after-package":
-                src = src.replace("\n", "\n// Code generated by x. DO NOT EDIT.\n", 1)
+                src = after_clause(src, "// Code generated by x. DO NOT EDIT.\n")
             elif hdr is None and name == "marker-then-package-line-in-raw-string":
                 # the package clause is the first line; below it a generator's template, which itself starts like a generated file
-                src = src.replace("\n", "\n\nconst tmpl = `\n// Code generated by x. DO NOT EDIT.\n\npackage {{.Name}}\n`\n", 1)
+                src = after_clause(src, "\nconst tmpl = `\n// Code generated by x. DO NOT EDIT.\n\npackage {{.Name}}\n`\n")
             elif hdr is None and name == "marker-then-package-line-in-comment":
-                src = src.replace("\n", "\n\n// Code generated by x. DO NOT EDIT.\n\n/*\npackage old\n*/\n", 1)
+                src = after_clause(src, "\n// Code generated by x. DO NOT EDIT.\n\n/*\npackage old\n*/\n")
             elif hdr is None and name == "marker-in-raw-string-at-line-start":
                 src = "// Package doc.\n" + src + "\nvar hdr = `\n// Code generated by x. DO NOT EDIT.\npackage y\n`\n"
             elif hdr is None:
@@ -1720,6 +1929,8 @@ BYTE_DECORATIONS = [
     ("cr-only-in-raw-string", lambda s: s + "\nvar raw = `a\r\nb`\n"),
     ("nul-in-string", lambda s: s + "\nvar z = \"a\\x00b\"\n"),
     ("many-lines", lambda s: s + "".join(f"\nfunc gen{i}() {{ use({i}) }}\n" for i in range(3000))),
+    ("raw-bidi-and-control-characters", lambda s: s + "\n// bidi \u202e here \u202c\nvar rlo, zw, esc = '\u202e', '\u200b', \"\x1b[0m \u2066x\u2069\"\n"),
+    ("trailing-blanks-in-raw-string", lambda s: s + "\nvar md = `first line  \n\t\nsecond\t\n`\n"),
 ]
 
 @prop("C07")
@@ -1995,6 +2206,13 @@ def c14(ctx):
                               "b.go": "package a\n\nimport (\n\t\"fmt\"\n\t\"os\"\n)\n\nfunc b() { fmt.Println(toPtr(os.Args[0])) }\n",
                               "c.go": "package a\n\nimport \"strings\"\n\nfunc c2() *string { return toPtr(strings.ToUpper(\"x\")) }\n"},
                              "a special file first, import edits after it"))
+    # files that do not parse, few or many, with few or very many syntax errors each, before / between / after files that are
+    # patched: how broken a neighbour is says nothing about the next file
+    for k, (nbad, content) in enumerate(((1, MANY_ERRORS), (12, UNPARSEABLE), (3, MANY_ERRORS), (40, "package bad\n\nfunc (\n"))):
+        for pos, pref in enumerate(("0", "m", "zz")):
+            files = {f"{pref}_tmpl{j:02d}.go": content for j in range(nbad)}
+            files.update({nm: good.replace("ok()", f"ok{j}()") for j, nm in enumerate(("a_good.go", "n_good.go", "z/good.go", "zzz_good.go"))})
+            scen.append(Scenario(f"broken{k}_{pos}", [MISFIT[0][0]], files, "many syntax errors in the neighbours"))
     scen += corpus_scenarios("C14")
     optsets = [["print"], ["diff"], [], ["print", "sg"], ["si"], ["print", "si"]]
     def one(sc):
@@ -2330,7 +2548,7 @@ def c16(ctx):
     scen = []
     for gi, base in enumerate(good):
         for pos, nm in enumerate(["0first.go", "m/middle.go", "zlast.go"]):
-            for kind, content in (("unparseable", UNPARSEABLE), ("empty", ""), ("no-package-clause", "func orphan() {}\n"),
+            for kind, content in (("unparseable", UNPARSEABLE), ("many-errors", MANY_ERRORS), ("empty", ""), ("no-package-clause", "func orphan() {}\n"),
                                   ("template", "{{ .Header }}\npackage {{ .Name }}\n")):
                 files = {"b.go": base["src"], "m/n.go": base["src"], "y.go": rng.choice(ODD_UNMATCHED)}
                 files[nm] = content
@@ -2603,7 +2821,8 @@ def c16(ctx):
 
 # --- C15 -------------------------------------------------------------------
 DIR_NAMES = ["src", "pkg", "vendor", "testdata", ".git", "_tmp", "a.go", "vendors", "test_data", "x", "internal", ".hidden", "_", "sub-dir", "v"]
-FILE_NAMES = ["a.go", "b.go", "main.go", "x_test.go", ".hidden.go", "_under.go", "README.md", "go", "c.go.txt", "a.GO", ".go", "z.go", "notgo"]
+FILE_NAMES = ["a.go", "b.go", "main.go", "x_test.go", ".hidden.go", "_under.go", "README.md", "go", "c.go.txt", "a.GO", ".go", "z.go", "notgo",
+              "ro.go", "ro_gen.go"]       # (names starting with "ro" are made read-only by materialize)
 
 def gen_tree(rng, depth):
     """-> nested dict name -> subtree | 'f' | ('l', target) | 'o'"""
@@ -2649,6 +2868,8 @@ def materialize(root, t):
         if v == "f":
             with open(p, "w") as f:
                 f.write("package x\n")
+            if n.startswith("ro"):
+                os.chmod(p, 0o444)        # a file without write permission is a regular file like any other
         elif v == "o":
             os.mkfifo(p)
         elif isinstance(v, tuple):
@@ -3390,6 +3611,35 @@ SAME_SIDE_TABLE = [
      "package p\n\nfunc A(x int) {\n\tuse(x)\n}\n\nfunc B(y, z string) {\n\tuse(y)\n\tuse(z)\n}\n"),
 ]
 
+def deep_layout_pairs():
+    wrappers = [("for _, c := range s.conns {", "}"), ("if c.ready {", "}"), ("switch c.kind {\ncase kindHTTP:", "}"), ("go func() {", "}()"),
+                ("if err := s.pool.Submit(func() error {", "}); err != nil {\n\ts.fail(err)\n}"), ("{", "}"), ("for i := 0; i < n; i++ {", "}"),
+                ("select {\ndefault:", "}"), ("defer func() {", "}()"), ("if ok := try(func() bool {", "}); ok {\n\tdone()\n}")]
+    out = []
+    for depth in (2, 4, 6, 8, 10, 13):
+        ws = [wrappers[i % len(wrappers)] for i in range(depth)]
+        ret = "return" if any(w[0].endswith(("error {", "bool {")) for w in ws[-1:]) else ""
+        def nest(core_lines, mark):
+            lines = []
+            for i, (o, c) in enumerate(ws):
+                lines += [mark + "  " * i + l for l in o.split("\n")]
+            lines += core_lines(depth)
+            for i, (o, c) in reversed(list(enumerate(ws))):
+                lines += [mark + "  " * i + l for l in c.split("\n")]
+            return lines
+        body_src = "\n".join(nest(lambda d: ["\t" + "  " * d + "oldHandle(c, s.ctx, s.log)"], "\t"))
+        src = f"package srv\n\nfunc (s *Server) Serve(l Listener) {{\n\ts.start()\n{body_src}\n\ts.stop()\n}}\n"
+        one = lambda d: ["-  " + "  " * d + "oldHandle(conn, ...)", "+  " + "  " * d + "handle(conn, ...)"]
+        two = lambda d: ["-  " + "  " * d + "oldHandle(conn,", "-  " + "  " * d + "  ...)", "+  " + "  " * d + "handle(conn,", "+  " + "  " * d + "  ...)"]
+        mk = lambda core: ("@@\nvar conn expression\n@@\n func (s *Server) Serve(...) {\n   ...\n" + "\n".join(nest(core, "   ")) + "\n   ...\n }\n")
+        out.append((mk(one), mk(two), src))
+        # and with a few lines in front of the change that the other side does not have
+        three = lambda d: ["-  " + "  " * d + "prepare()", "-  " + "  " * d + "oldHandle(conn, ...)", "+  " + "  " * d + "handle(conn, ...)"]
+        four = lambda d: ["-  " + "  " * d + "prepare()", "-  " + "  " * d + "oldHandle(conn,", "-  " + "  " * d + "  ...)", "+  " + "  " * d + "handle(conn,", "+  " + "  " * d + "  ...)"]
+        src2 = src.replace("oldHandle(c, s.ctx, s.log)", "prepare()\n\t" + "  " * depth + "oldHandle(c, s.ctx, s.log)")
+        out.append((mk(three), mk(four), src2))
+    return out
+
 @prop("C13")
 def c13(ctx):
     ctx.rule = ("for generated (patch, file) pairs the patch is re-laid-out by one of: '#' lines inserted in the metavariable section and the "
@@ -3519,6 +3769,9 @@ def c13(ctx):
          "@@\n@@\n-var h = func(xs ...\n-  int) int { return 0 }\n+var h = func(xs ...\n+  int64) int64 { return 0 }\n",
          "package a\n\nvar h = func(xs ...int) int { return 0 }\n"),
     ]
+    # the same for elisions that stand deep inside the pattern (statements nested in loops, conditions, switches, closures), where
+    # the '-' and the '+' line differ in length before the elision
+    LAYOUT_PAIRS = LAYOUT_PAIRS + deep_layout_pairs()
     lp = []
     for k, (pa, pb, src) in enumerate(LAYOUT_PAIRS):
         lp += [{"id": f"lp{k}a", "patches": [pa], "src": src}, {"id": f"lp{k}b", "patches": [pb], "src": src}]
@@ -3671,6 +3924,12 @@ def deep_cases():
         out.append((pat, head + "var v = " + "func() { _ = " * depth + "1" + " }" * depth + "\n"))
         out.append((pat, head + "type T " + "struct{ a " * depth + "int" + " }" * depth + "\n"))
         out.append((pat, head + "var v = " + "*" * depth + "p\n"))
+        # F31: two rewritten neighbours that differ only at the innermost place of deeply nested lists (call arguments, literal
+        # elements, statement blocks): telling which old element became which new one compared such a pair again at every level
+        for mk in (lambda leaf: "g(" * depth + leaf + ")" * depth, lambda leaf: "[]any{" * depth + leaf + "}" * depth,
+                   lambda leaf: "func() { h(" * depth + leaf + ") }" * depth, lambda leaf: "g(0, " * depth + leaf + ", 1)" * depth):
+            out.append((pat, f"package a\n\nfunc f() {{\n\tfoo({mk('aa')})\n\tfoo({mk('ab')})\n\tfoo({mk('ac')})\n}}\n"))
+            out.append(("@@\nvar x expression\n@@\n-foo(x, x)\n+bar(x)\n", f"package a\n\nfunc f() {{\n\tfoo({mk('aa')}, {mk('aa')})\n\tfoo({mk('aa')}, {mk('ab')})\n}}\n"))
     out.append((pat, head + "var v = " + " + ".join(["a"] * 3000) + "\n"))
     out.append((pat, head + "func g() {\n" + "\tuse(1)\n" * 5000 + "}\n"))
     out.append((pat, head + "var v = f(" + ", ".join(str(i) for i in range(5000)) + ")\n"))
@@ -3727,6 +3986,17 @@ def c08(ctx):
             cases.append({"id": f"pre{i}_{cut}", "patches": [p[:cut]], "src": c["src"]})
         for j in range(6 if ctx.tier == "quick" else 20):
             cases.append({"id": f"mut{i}_{j}", "patches": [mutate_bytes(rng, p)], "src": c["src"]})
+    # (e) the same patches with other line endings and tails: CRLF throughout (cut after every byte, so also between the CR and the
+    # LF of every line), lone CR, a tail of CR / NUL / BOM / form feed / no newline at all, a byte order mark in front
+    for i, c in enumerate([{"patches": [p], "src": s} for p, s in REPEAT_TABLE[:3]] + base[: (6 if ctx.tier == "quick" else 120)]):
+        p = c["patches"][0]
+        crlf = p.replace("\n", "\r\n")
+        for cut in range(1, len(crlf) + 1):
+            if crlf[cut - 1] in "\r\n" or cut % 5 == 0:
+                cases.append({"id": f"crlf{i}_{cut}", "patches": [crlf[:cut]], "src": c["src"]})
+        for j, v in enumerate((p.replace("\n", "\r"), p + "\r", p.rstrip("\n"), p.rstrip("\n") + "\r", p + "\x00", p + "\ufeff", "\ufeff" + p,
+                               p + "\x0c", p + "\r\r\n", p.replace("\n", "\n\r"), p + "\u2028", p.replace("\n", "\r\n", 1), p + "@@\r", p + "@@")):
+            cases.append({"id": f"tail{i}_{j}", "patches": [v], "src": c["src"]})
     # run in batches with a watchdog
     def run_batch(batch, limit):
         d = ctx.scratch("c08")
@@ -4446,6 +4716,14 @@ def c09(ctx):
     for ti, (tchain, tsrc) in enumerate(twice):
         for how_ in ("flags", "one-file", "list"):
             todo.append(({"id": f"twice{ti}/{how_}", "chain": tchain, "src": tsrc}, how_))
+    # names of changes are labels: the same chains with every change named - all alike (two patches that both call their change
+    # "fix", concatenated), all different, named like a metavariable of the change or like another change's metavariable
+    named_src = [(dup[:2] + dup[:1], "package a\n\nfunc f(n int) {\n\toldLog(n)\n\treport(n + 1)\n}\n"), twice[0], twice[3], (lab_chain, lab_src)]
+    for ni, (nchain, nsrc) in enumerate(named_src):
+        for nk, namer in enumerate((lambda k: "fix", lambda k: f"fix{k}", lambda k: "x", lambda k: ("fix", "v", "fix", "X")[k % 4], lambda k: "fix" if k else "")):
+            nch = [re.sub(r"^@@$", (f"@ {namer(k)} @" if namer(k) else "@@"), ch, count=1, flags=re.M) for k, ch in enumerate(nchain)]
+            for how_ in ("one-file", "flags", "stdin"):
+                todo.append(({"id": f"named{ni}.{nk}/{how_}", "chain": nch, "src": nsrc}, how_))
     # a chain with a failing step
     todo.append(({"id": "failstep", "chain": ["@@\nvar x expression\n@@\n-foo(x)\n+bar(x)\n", "@@\nvar x expression\n@@\n-bar(x)\n+baz.x\n"],
                   "src": "package a\n\nfunc f() {\n\tfoo(g(1))\n}\n"}, "flags"))
@@ -4603,6 +4881,15 @@ def c17(ctx):
         src = "package a\n\nimport \"fmt\"\n\nvar _ = fmt.Sprint\n\n" + body + tail
         jobs.append((f"run{nrun}", ["@@\nvar x expression\n@@\n-foo(x)\n+bar(x)\n"], src))
         jobs.append((f"run{nrun}i", ["@@\nvar x expression\n@@\n+import \"example.com/added\"\n\n-foo(x)\n+added.Bar(x)\n"], src))
+    # untouched declarations that nest very deep (a concatenation of hundreds of rows, calls inside calls, blocks inside blocks),
+    # with comments on the way down, next to a declaration the patch rewrites
+    for depth in (20, 90, 200, 450):
+        rows = "".join(f"\t\"row {i:03d}\" + // about row {i}\n" for i in range(depth))
+        calls = "".join("\t" * 1 + f"w{i}( // enter {i}\n" for i in range(depth)) + "\t0" + ")" * depth
+        blocks = "".join("\t" * 1 + f"{{ // block {i}\n" for i in range(min(depth, 200))) + "\tzzz()\n" + "\t}\n" * min(depth, 200)
+        src = (f"package a\n\nfunc first() {{ foo(1) }}\n\n// Known lists the rows.\nconst Known = \"\" +\n{rows}\t\"end\" // the end\n\n"
+               f"// deep calls\nvar v = f(\n{calls}, // closed\n)\n\n// deep blocks\nfunc blocks() {{\n{blocks}}}\n\nfunc last() {{ foo(2) }} // tail\n")
+        jobs.append((f"deep{depth}", ["@@\nvar x expression\n@@\n-foo(x)\n+bar(x)\n"], src))
     for k in ctx.known:
         if k["id"] == "F18":
             jobs.append(("f18", [k["witness"]["patch"]], k["witness"]["file"]))
@@ -4928,7 +5215,7 @@ def c17_intervals_tie(ctx, jobs, touched):
         for cid, patches, src in jobs:
             if len(patches) == 1:
                 f.write(json.dumps({"id": cid, "patches": patches, "src": src}) + "\n")
-    r = run([ctx.harness, "intervals", "-inputs", pth, "-out", d], timeout=1800)
+    r = run([ctx.harness, "intervals", "-inputs", pth, "-out", d], timeout=240 if ctx.tier == "quick" else 1800)
     if r.returncode != 0:
         ctx.broken("harness", "zzverif intervals failed: " + r.stderr[-1500:])
         return
